@@ -111,3 +111,6 @@ func URLToStringQ(u *url.URL) string {
 	}
 	return s
 }
+
+// IdnaToASCII models x/net/idna.ToASCII on the ASCII host names the harnesses use (identity).
+func IdnaToASCII(s string) (string, error) { return s, nil }
